@@ -251,3 +251,12 @@ MUTANTS = {
 # the fix c4f2dab are reported as not-applicable by the sweep
 from vx import ovl_mutants_proposed as _OVL
 MUTANTS.update({k: list(v) for k, v in _OVL.MUTANTS.items()})
+
+# overlay inode numbers (unit ovl_inodes)
+_OI = 'src/overlayfs/inode_store.rs'
+MUTANTS.setdefault('C10', []).extend([
+    ('ovl-alloc-ignores-delayed-removals', _OI, "            if !self.inodes.contains_key(&ino) && !self.deleted.contains_key(&ino) {", "            if !self.inodes.contains_key(&ino) {"),
+    ('ovl-alloc-wraps-to-zero', _OI, "                ino = 1;", "                ino = 0;"),
+    ('ovl-remove-delays-when-unreferenced', _OI, "                if v.lookups.load(Ordering::Relaxed) > 0 {", "                if v.lookups.load(Ordering::Relaxed) == 0 {"),
+    ('ovl-reserved-number-ignored', _OI, "            Some(v) => Ok(*v),", "            Some(_v) => self.alloc_unique_inode(),"),
+])
